@@ -213,15 +213,15 @@ def pregroup_case(rng, ctx):
                    sentence=[w.name for w in good])
 
 
-def check_parse(ctx, via, diagram, words, vocab, tkey):
+def check_parse(ctx, via, diagram, words, tkey):
     target = rigid_ty(tkey)
     try:
-        ok, why, n_words, n_cups = gm.pregroup_shape(diagram, words, target, vocab)
+        ok, why, n_words, n_cups = gm.pregroup_shape(diagram, words, target)
     except Exception as err:
         ok, why, n_words, n_cups = False, "model raised {}: {}".format(
             type(err).__name__, err), 0, 0
     ctx.expect("pregroup-parse-shape", ok, via=via, reason=why,
-               words=lambda: [safe_repr(w, 200) for w in (words or vocab)],
+               words=lambda: [safe_repr(w, 200) for w in words],
                target=lambda: safe_repr(target),
                diagram=lambda: safe_repr(diagram),
                offsets=lambda: getattr(diagram, "offsets", None))
@@ -253,7 +253,7 @@ def one_parse(ctx, label, words, tkey):
     ctx.count("eager_parse_returned:" + label)
     if not gm.eager_reduces([gm.rigid_key(w.cod) for w in words], tkey):
         ctx.count("info_returned_though_own_eager_reduction_fails")
-    return check_parse(ctx, "eager_parse", diagram, words, None, tkey) >= 1
+    return check_parse(ctx, "eager_parse", diagram, words, tkey) >= 1
 
 
 class _SearchCap(Exception):
@@ -278,15 +278,15 @@ def brute(rng, ctx, vocab, tkey, max_yields=50, max_calls=300):
         try:
             for diagram in pregroup.brute_force(*vocab, target=target):
                 yields += 1
-                given = list(calls[-1]) if calls else None
+                given = list(calls[-1]) if calls else []
                 ctx.count("brute_force_yields")
                 # the sentence is the last one handed to eager_parse; it must
                 # also be made of vocabulary words only
-                n_cups = check_parse(ctx, "brute_force", diagram, given, None, tkey)
-                check_vocab = all(any(w is v for v in vocab) for w in (given or []))
+                n_cups = check_parse(ctx, "brute_force", diagram, given, tkey)
+                check_vocab = all(any(w is v for v in vocab) for w in given)
                 ctx.expect("pregroup-parse-shape", check_vocab, via="brute_force",
                            reason="sentence uses a word outside the vocabulary",
-                           words=lambda: [safe_repr(w, 200) for w in given or []])
+                           words=lambda: [safe_repr(w, 200) for w in given])
                 interesting |= n_cups >= 1
                 if yields >= max_yields:
                     break
